@@ -25,6 +25,7 @@ type c13X struct {
 	PanicFinalDue bool // the final response is due when the panic surfaces
 	OutOfContract bool
 	EarlyFail     int         // -1 none, else the backend returns an error after reading this many octets (< message size)
+	EarlyOK       bool        // the early return is a success (nil)
 	FailChunk     int         // chunk whose copy fails (-1 none)
 	Final         []c13Expect // expected final replies (nil if no final response is due)
 	Expect        []string    // expected codes/classes of all replies after the RCPTs up to (excluding) the finals, e.g. "354", "250", "E" (error, single)
@@ -191,7 +192,11 @@ func genC13(t *Tape, tier string) *Scenario {
 		x.EarlyFail = t.Intn(len(msg) - 1)
 		dp.ReadMode = readK
 		dp.ReadK = x.EarlyFail
-		if dp.V.Kind == vOK {
+		if dp.V.Kind == vOK && x.Flavor == beLMTP && t.Bool() {
+			// a per-recipient backend that returns nil early: it decided from the
+			// envelope and the first octets (LMTPData does not require r to be consumed)
+			x.EarlyOK = true
+		} else if dp.V.Kind == vOK {
 			dp.V = Verdict{Kind: vSMTP, Code: 554, Enh: [3]int{5, 6, 0}, Msg: "ret-err"}
 			retCode, retTok = 554, "ret-err"
 		}
@@ -466,6 +471,9 @@ func classifyC13(sc *Scenario, h *History, st *Stats) string {
 			st.Probes["backend_panic_logged_to_slow_sink"]++
 		}
 	}
+	if x.EarlyOK {
+		st.Probes["backend_returns_nil_early"]++
+	}
 	if x.EarlyFail >= 0 {
 		st.Probes["backend_fails_early"]++
 		if x.ViaBdat && x.FailChunk == len(x.Chunks)-1 {
@@ -513,7 +521,7 @@ func init() {
 		Real:        []string{"smtp.Server.Serve/handleConn", "smtp.Conn handleDataLMTP, handleBdat (LMTP), statusCollector, delivery goroutines, panic recovery", "io.Pipe", "net/textproto", "bufio"},
 		Stub:        []string{"net.Listener (SimListener)", "net.Conn (SimConn)", "Backend/LMTPSession/StatusCollector caller (SimBackend)", "clock (synctest)", "LMTP client (raw driver)"},
 		Assumptions: []string{"statuses a backend set explicitly before it panicked are honoured; the others must not be 2xx", "out-of-contract backends are judged only for no deadlock / no crash"},
-		Required:    []string{"backend_fails_early_during_LAST_chunk", "backend_panic_logged_to_slow_sink", "duplicate_recipient", "out_of_contract_backend", "rejected_rcpt_interleaved", "backend_panic"},
+		Required:    []string{"backend_fails_early_during_LAST_chunk", "backend_returns_nil_early", "backend_panic_logged_to_slow_sink", "duplicate_recipient", "out_of_contract_backend", "rejected_rcpt_interleaved", "backend_panic"},
 		QuickRuns:   200000, ThoroughRuns: 4000000,
 	})
 }
